@@ -10,6 +10,15 @@ CONSTANTS EmitOn
 
 KW(k) == Keyword[k]
 T(s) == StrCps(s)
+(* a line that fails 150 calls deep.  TLC re-evaluates the front end of a line at every step of its run (the definition
+   is not cached), which is unaffordable for a 3000-step run: this one line's tree is given directly, and an assumption
+   checked at start-up says that the front end produces exactly this tree from the text. *)
+DeepText == KW("FUN") \o T(" r(n){") \o KW("IF") \o T("(n<1)") \o KW("RETURN") \o T(" nil-1;") \o KW("RETURN") \o T(" r(n-1);}r(150);")
+RECURSIVE OneLine(_)
+OneLine(t) == LET u == IF "ln" \in DOMAIN t THEN [t EXCEPT !.ln = 1] ELSE t IN
+              IF "c" \in DOMAIN u THEN [u EXCEPT !.c = [i \in 1..Len(u.c) |-> OneLine(u.c[i])]] ELSE u
+DeepTree == OneLine(Prog(<< SFun("r", <<"n">>, << SIf(Bin("<", Id("n"), Lit(N(1))), SReturn(Bin("-", Lit(VNil), Lit(N(1)))), None), SReturn(Call(Id("r"), <<Bin("-", Id("n"), Lit(N(1)))>>)) >>),
+                            SExpr(Call(Id("r"), <<Lit(N(150))>>)) >>))
 Pool == <<
   KW("PRINT") \o T(" 1 + 2;"),
   T("7;"), T("\"s\";"), T("nil;"), KW("TRUE") \o T(";"), T("[1, 2];"), T("{k: 1};"), T("({k: 1, m: \"v\"});"), T("1 < 2;"), T("2 ** 10;"), T("\"a\" + 1;"), T("0.1 + 0.2;"), Builtin["len"] \o T("([1, 2, 3]);"),
@@ -22,9 +31,13 @@ Pool == <<
   KW("FOR") \o T(" (;;) { 1 / 0; }"), KW("WHILE") \o T(" (1) { nil(); }"),
   KW("VAR") \o T(" i = 0; ") \o KW("WHILE") \o T(" (i < 3) { i = i + 1; i; }"),
   T(""), T("   "), T("// only a comment"), T("/* c */ 5;"),
-  Builtin["len"] \o T(" = 0; ") \o Builtin["len"] \o T(";"), KW("VAR") \o T(" x = 1; x = zz; x;") >>
+  Builtin["len"] \o T(" = 0; ") \o Builtin["len"] \o T(";"), KW("VAR") \o T(" x = 1; x = zz; x;"),
+  \* a line that fails 150 calls deep (sessions repeat it: whatever a failed line leaves behind must not add up), and lines that end in a comment
+  T("1 + 2; // tail"), T("\"50%\";"), T("\"%d %s\" + 1;"), DeepText >>
 
-Fronts == [i \in 1..Len(Pool) |-> FrontEnd(Pool[i])]
+DeepIdx == Len(Pool)
+Fronts == [i \in 1..Len(Pool) |-> IF i = DeepIdx THEN [accept |-> TRUE, tree |-> DeepTree] ELSE FrontEnd(Pool[i])]
+ASSUME LET f == FrontEnd(DeepText) IN f.accept /\ f.tree = DeepTree
 FamProgOf(i) == IF Fronts[i].accept THEN Fronts[i].tree ELSE Prog(<<>>)
 Init == \E i \in 1..Len(Pool) :
           IF Fronts[i].accept THEN InitSem(i, <<>>, TRUE)
